@@ -210,14 +210,26 @@ def run(ctx) -> Report:
     # ---------------------------------------------------------- structural: context memo
     for alg in ctx.disp.algorithm_classes()["Transformer"]:
         tab = ctx.disp.mf_table(alg)
-        # context-sensitive: some terminal handler reads self state set by other handlers
+        # context-sensitive: a handler (or a helper method of the class) reads private state of the object that the
+        # methods of the class change during the traversal (pushed / appended / popped / assigned by item)
+        own = [f for k in alg.mro() if k.name not in ("Transformer", "ReuseTransformer", "object") for f in k.all_defs if f.name != "__init__"]
+        changed = set()
+        for f in own:
+            for p in ast.walk(f.node):
+                tgt = None
+                if isinstance(p, ast.Call) and isinstance(p.func, ast.Attribute) and p.func.attr in ("push", "append", "pop", "popitem", "update", "setdefault", "insert", "extend", "clear"):
+                    tgt = p.func.value
+                elif isinstance(p, (ast.Assign, ast.Delete)):
+                    for t in p.targets:
+                        if isinstance(t, ast.Subscript):
+                            tgt = t.value
+                if tgt is not None and isinstance(tgt, ast.Attribute) and isinstance(tgt.value, ast.Name) and tgt.value.id == "self" and tgt.attr.startswith("_") and tgt.attr != "_variable_cache":
+                    changed.add(tgt.attr)
         state_reads = set()
-        for h in {id(v): v for v in tab.values() if v is not None}.values():
-            if h.func.cls is not None and h.func.cls.name == alg.name:
-                for n in ast.walk(h.func.node):
-                    if isinstance(n, ast.Attribute) and isinstance(n.value, ast.Name) and n.value.id == "self" and n.attr.startswith("_") and n.attr not in ("_variable_cache",):
-                        if any(isinstance(p, ast.Call) and isinstance(p.func, ast.Attribute) and p.func.attr == "push" and norm(p.func.value) == f"self.{n.attr}" for hh in tab.values() if hh is not None for p in ast.walk(hh.func.node)):
-                            state_reads.add(n.attr)
+        for f in own:
+            for n in ast.walk(f.node):
+                if isinstance(n, ast.Attribute) and isinstance(n.ctx, ast.Load) and isinstance(n.value, ast.Name) and n.value.id == "self" and n.attr in changed:
+                    state_reads.add(n.attr)
         if not state_reads:
             continue
         var = tab.get("Variable")
